@@ -4,6 +4,7 @@ import AvroModel.Drv.Enc
 import AvroModel.Drv.CodecDrv
 import AvroModel.Drv.Time
 import AvroModel.Drv.Bank
+import AvroModel.Drv.File
 open Avro Avro.Sexp Avro.Drv
 
 def dispatch (prop : String) (op : String) (args : List Sexp) : Verdict :=
@@ -16,6 +17,8 @@ def dispatch (prop : String) (op : String) (args : List Sexp) : Verdict :=
   | "C18" => c18 op args
   | "C19" => c19 op args
   | "C10" => c10 op args
+  | "C07" => c07 op args
+  | "C08" => c08 op args
   | _ => .bad s!"unknown property {prop}"
 
 partial def loop (prop : String) (h : IO.FS.Stream) (out : IO.FS.Stream) : IO Unit := do
